@@ -388,6 +388,10 @@ def run(ctx: Ctx) -> None:
     n14 = kinds_not_confused(ctx, "C17.R14", ("dds.codec", "dds.codecs.builtins", "dds.codecs.databricks", "dds.store", "dds.structures_utils"),
                              "blobs written by an older release under the reference `default.pandas_local` fail with 'Requested protocol ... is not registered' although has_blob answers True")
     rep.floor("C17.R14", n14, 3)
+    from . import storerules as _S17
+    rep.rule("C17.R16", "results are read back from the file the codec wrote: every deserialize_from of the local store's fetch_blob is handed the blob location, whatever the kind of codec")
+    n16 = _S17.decode_reads_blob(ctx, _S17.LocalView(ctx), "C17.R16")
+    rep.floor("C17.R16", n16, 2)
     if rep.prop == "C17":
         from .c09 import load_checks_presence as _lcp
         rep.rule("C17.R15", "as C09.R18: load decides that a blob is absent by asking has_blob, never by looking at the decoded value: a result that is None is read back as None")
